@@ -359,6 +359,22 @@ func c16IBECase(r *mon.R, m c16ibeMode, l, rep, hs int) {
 			}
 		}
 	}
+	// extensions: V, W or both followed by extra bytes
+	for _, extra := range []int{1, 7, 32, 128} {
+		for _, which := range []string{"V", "W", "V+W"} {
+			v2, w2 := V, W
+			if which != "W" {
+				v2 = append(append([]byte(nil), V...), rng.Bytes(extra)...)
+			}
+			if which != "V" {
+				w2 = append(append([]byte(nil), W...), rng.Bytes(extra)...)
+			}
+			p, e, ok := dec("extend/"+which, priv, c16Dec(ug, Ub), v2, w2, "extra", extra, "part", which)
+			if ok {
+				c.altered(decName, "extend/"+which, fmt.Sprintf("%s extra=%d", which, extra), p, e, msg, "extra", extra, "part", which)
+			}
+		}
+	}
 	// V / W swapped (only an alteration if they differ)
 	if !bytes.Equal(V, W) {
 		p, e, ok := dec("swap/V<->W", priv, c16Dec(ug, Ub), W, V)
@@ -501,6 +517,11 @@ func c16IBECPACase(r *mon.R, c *c16c, m c16ibeMode, k c16ibeKeys, rng *gen.Rng, 
 		for _, cut := range []int{0, len(C) / 2} {
 			if _, _, ok := dec("truncate/C/no-panic", priv, c16Dec(ug, RPb), C[:cut], "cut", cut); ok {
 				c.eval("truncate/C/no-panic", fmt.Sprintf("cut=%d", cut), true)
+			}
+		}
+		for _, extra := range []int{1, 7, 32, 33, 128} {
+			if _, _, ok := dec("extend/C/no-panic", priv, c16Dec(ug, RPb), append(append([]byte(nil), C...), rng.Bytes(extra)...), "extra", extra); ok {
+				c.eval("extend/C/no-panic", fmt.Sprintf("extra=%d", extra), true)
 			}
 		}
 		if _, _, ok := dec("substitute/RP=identity/no-panic", priv, ug.Point().Null(), C); ok {
